@@ -35,3 +35,4 @@ Definition check_enum := mismatches enum_case_ok.
 
 Definition check_target := mismatches target_case_ok.
 Definition check_pp := mismatches pp_case_ok.
+Definition check_resolve := mismatches resolve_case_ok.
